@@ -12,7 +12,8 @@ Shapes (name n):  G   add_class_arguments(F, n)                      units: n
                   SNN add_argument(--n, type=NN)  NN(sub: N)         units: n.init_args.sub.init_args.sub, n.init_args.sub, n
                   GN  add_class_arguments(P, n)   P(child: F)        units: n.child, n
                   GNN add_class_arguments(PP, n)  PP(child: N)       units: n.child.init_args.sub, n.child, n
-Every class has int parameters l0..l7 (default -1) that links may target, and sets self.at to a fresh marker object.
+Every class has int parameters l0..l7 (default -1) that links may target, sets self.at to a fresh marker object and the
+attributes an, az, ae, af to None, 0, "" and False (falsy attribute values are values like any other).
 """
 import json
 import os
@@ -42,6 +43,14 @@ def canon(v):
         return ["fn", v.j, [canon(a) for a in v.args]]
     if isinstance(v, Namespace):
         return ["ns"]
+    if v is None:
+        return ["lit", 0]
+    if v is False:
+        return ["lit", 3]
+    if isinstance(v, int) and not isinstance(v, bool) and v == 0:
+        return ["lit", 1]
+    if isinstance(v, str) and v == "":
+        return ["lit", 2]
     if type(v).__name__ in UNIT:
         return ["obj", UNIT[type(v).__name__]]
     if v == -1 and isinstance(v, int):
@@ -62,6 +71,7 @@ class {cls}:
     def __init__(self, {sub}{params}):
         LOG.append(["new", UNIT["{cls}"], [[i, canon(v)] for i, v in enumerate([{plist}])]])
         self.at = Attr(UNIT["{cls}"])
+        self.an, self.az, self.ae, self.af = None, 0, "", False
 UNIT["{cls}"] = "{unit}"
 '''
 
